@@ -412,7 +412,7 @@ func checkExpressionAccessor(r *Run, prog *Program, a *Anchors, pfx string) {
 	for _, fa := range prog.FieldAccesses(prog.ModuleFuncs()) {
 		if fa.Struct.Obj() == evT && fa.Field == field && fa.Kind == "write" {
 			n++
-			ok := prog.ctorHelper(a, fa.Fn, 0) && prog.originOfParam(fa.Val, 0) == ssa.Value(a.CreateEv.Params[0])
+			ok := prog.ctorHelper(a, fa.Fn, 0) && isCtorExpression(prog, a, fa.Val, 0)
 			r.Check(pfx+".expression", "writer:"+fa.Fn.Name(), prog.pos(fa.Instr.Pos()), ok, "Evaluator."+field+" must be set once, by CreateEvaluator, to its expression parameter itself (byte for byte); stored: "+describeRoot(prog, fa.Val))
 		}
 	}
@@ -428,7 +428,7 @@ func checkExpressionAccessor(r *Run, prog *Program, a *Anchors, pfx string) {
 				if c, ok := ins.(*ssa.Call); ok && c.Call.StaticCallee() == a.Parse {
 					nParse++
 					cv, isConv := c.Call.Args[1].(*ssa.Convert)
-					r.Check(pfx+".expression", "parsed-string-is-parameter", prog.pos(c.Pos()), isConv && prog.originOfParam(cv.X, 0) == ssa.Value(a.CreateEv.Params[0]), "the bytes parsed are not the expression parameter itself")
+					r.Check(pfx+".expression", "parsed-string-is-parameter", prog.pos(c.Pos()), isConv && isCtorExpression(prog, a, cv.X, 0), "the bytes parsed are not the expression parameter itself")
 				}
 			}
 		}
@@ -504,6 +504,42 @@ func notKept(al *ssa.Alloc) bool {
 				return false
 			}
 		default:
+			return false
+		}
+	}
+	return true
+}
+
+// isCtorExpression: v is the expression text a constructor was given: the string parameter of CreateEvaluator or
+// CreateFilter itself, or the parameter of a helper of the constructors that receives it at every call site.
+func isCtorExpression(prog *Program, a *Anchors, v ssa.Value, depth int) bool {
+	par, ok := v.(*ssa.Parameter)
+	if !ok || depth > 3 || !types.Identical(par.Type().Underlying(), types.Typ[types.String]) {
+		return false
+	}
+	fn := par.Parent()
+	if fn == a.CreateEv || fn == a.CreateFi {
+		return len(fn.Params) > 0 && par == fn.Params[0]
+	}
+	if !prog.ctorHelper(a, fn, 0) {
+		return false
+	}
+	idx := -1
+	for i, q := range fn.Params {
+		if q == par {
+			idx = i
+		}
+	}
+	n := prog.CG.Nodes[fn]
+	if n == nil || idx < 0 || len(n.In) == 0 {
+		return false
+	}
+	for _, e := range n.In {
+		if e.Site == nil || isSynthetic(e.Caller.Func) {
+			continue
+		}
+		args := e.Site.Common().Args
+		if idx >= len(args) || !isCtorExpression(prog, a, args[idx], depth+1) {
 			return false
 		}
 	}
